@@ -155,6 +155,15 @@ fn main() {
         let n_ops = rng.gen_range(ops / 2..=ops);
         let mut book: Box<dyn BookDyn> = new_book(levels, t0, tick, trading);
         let mut c = Ctx { tick, base: rng.gen_range(1..200), statuses: vec![], vols: vec![], prev_orders: vec![], prev_keys: vec![], n_trades: 0 };
+        // high-price regime (DESIGN.md 3.6): the real book runs with every limit price shifted so that the top of the price alphabet
+        // is the last grid point below 2^32 - 1; labels and logged prices stay in the specification's number system
+        let p_high = prof.get("p_high_prices").and_then(|x| x.as_f64()).unwrap_or(0.0);
+        let off: u32 = if rng.gen::<f64>() < p_high {
+            let pmax = (c.base + p.nprices) * tick + tick;
+            ((u32::MAX - 1 - pmax) / tick) * tick
+        } else { 0 };
+        bourse_verif_harness::PRICE_OFFSET.store(off, std::sync::atomic::Ordering::Relaxed);
+        if off > 0 { *feats.entry("runs_at_the_top_of_the_price_range".into()).or_insert(0) += 1; }
         let mut history: Vec<Value> = Vec::new();
         let pr = book.proj();
         let ev = json!({"op": "reset", "run": run, "t0": t0, "tick": tick, "trading": trading, "levels": levels,
